@@ -93,6 +93,10 @@ class Threads(EngineBase):
         for c in b["cpu_ids"]:
             ticks[str(c)] = [rng.randrange(0, 5000) for _ in range(10)]
         b["cpu_ticks"] = ticks
+        if rng.random() < 0.3:
+            # a CPU went offline earlier: its accumulated time stays in the
+            # "cpu" total line only
+            b["cpu_offline"] = [rng.randrange(0, 5000) for _ in range(10)]
         return b
 
     def target_world(self, rng):
@@ -576,6 +580,11 @@ class Threads(EngineBase):
         elif prog == "C07t":
             world = None
             cpu_ids = boot["cpu_ids"]
+            tnames = None
+            if rng.random() < 0.35:
+                # two worker threads that the application gave one name
+                nthreads = 3
+                tnames = {"1": "sampler", "2": "sampler"}
             for t in range(nthreads):
                 ops = []
                 for _ in range(rng.randrange(2, 5)):
@@ -616,6 +625,8 @@ class Threads(EngineBase):
                              "files": files, "pid_lo": 2, "pid_hi": 6}
         if prog in ("C07t", "C10t"):
             plan["world"] = {"net": {"eth0": [1000] * 16}}
+        if prog == "C07t" and tnames:
+            plan["world"]["thread_names"] = tnames
         return plan
 
     # ------------------------------------------------------------------
@@ -1038,8 +1049,11 @@ class Threads(EngineBase):
         cpu_ids = list(boot["cpu_ids"])
         imp = {int(c): list(r) for c, r in boot["cpu_ticks"].items()}
 
+        off = boot.get("cpu_offline") or [0] * 10
+
         def total_row(tab):
-            return [sum(tab[c][i] for c in cpu_ids) for i in range(10)]
+            return [off[i] + sum(tab[c][i] for c in cpu_ids)
+                    for i in range(10)]
 
         last = {}
         # order of completion == order of nacc_end
